@@ -12,12 +12,12 @@ from gen import c13_layout as L
 
 PROPERTY = "C13"
 LEAN_MODULES = ["LccModel.Props.C13", "LccModel.Props.C13Scan", "LccModel.Props.C13Params", "LccModel.Props.C13Reload",
-                "LccModel.Props.C13Spelling"]
+                "LccModel.Props.C13Spelling", "LccModel.Props.C13Attrs"]
 PROPS_FILES = ["LccModel/Props/C13.lean", "LccModel/Props/C13Scan.lean", "LccModel/Props/C13Params.lean",
-               "LccModel/Props/C13Reload.lean", "LccModel/Props/C13Spelling.lean"]
+               "LccModel/Props/C13Reload.lean", "LccModel/Props/C13Spelling.lean", "LccModel/Props/C13Attrs.lean"]
 NAMESPACES = {"LccModel/Props/C13.lean": "LccModel.C13", "LccModel/Props/C13Scan.lean": "LccModel.C13Scan",
               "LccModel/Props/C13Params.lean": "LccModel.C13Params", "LccModel/Props/C13Reload.lean": "LccModel.C13Reload",
-              "LccModel/Props/C13Spelling.lean": "LccModel.C13Spelling"}
+              "LccModel/Props/C13Spelling.lean": "LccModel.C13Spelling", "LccModel/Props/C13Attrs.lean": "LccModel.C13Attrs"}
 DRIVER = "drivers/C13.lean"
 TRUSTED_BASE = [
     "Lean 4.33.0 kernel; axioms of the property theorems ⊆ {propext, Classical.choice, Quot.sound}",
@@ -204,6 +204,11 @@ def x_tests(tests, flags, in_class=False):
 
 def x_cls(c, flags, in_class=False):
     _cond_flags(c.get("vis"), c["attr"], "class", flags)
+    # what the class inherits / holds besides its members declares nothing (flags only)
+    for label, props, _ in L.mro_of(c)[0 if c.get("own_props") else 1:] if (c.get("bases") or c.get("own_props")) else []:
+        for pr in props:
+            flags.add("prop:" + ("own" if label == "own" else "grandbase" if ".up" in label else "base" if label == "base0" else "mixin"))
+            flags.add("getter:" + pr["getter"])
     if c.get("ctor_fails"):
         flags.add("INVALID:ctor")
     if c.get("xrank") is not None:
@@ -643,10 +648,22 @@ def _j_test(t):
     return j
 
 
+_GETTER_CLASS = {"raise-attr": "raises", "raise-runtime": "raises", "fixture": "raises", "returns-test": "returns",
+                 "returns-suite": "returns", "value": "value"}
+
+
+def _j_mro(c):
+    """the class dicts of the MRO besides the members: properties by what their getter does at load time, plain attributes"""
+    if not c.get("bases") and not c.get("own_props"):
+        return None
+    return [[{"name": p["name"], "kind": "property", "getter": _GETTER_CLASS[p["getter"]], "target": p.get("target") or ""} for p in props] +
+            [{"name": a, "kind": "plain"} for a in attrs] for _, props, attrs in L.mro_of(c)]
+
+
 def _j_cls(c):
     return dict(_j_meta(c), attr=c["attr"], name=c.get("name"), desc=c.get("desc"), rank=c["rank"], vis=_j_vis(c.get("vis"), c["attr"]),
                 disabled=c.get("disabled") or False, ctor_fails=bool(c.get("ctor_fails")),
-                tests=[_j_test(t) for t in c["tests"]], subs=[_j_cls(s) for s in c["subs"]])
+                tests=[_j_test(t) for t in c["tests"]], subs=[_j_cls(s) for s in c["subs"]], mro=_j_mro(c))
 
 
 def _j_module(m):
@@ -768,10 +785,20 @@ def _shrink_lists(obj, path=()):
                     c = copy.deepcopy(obj)
                     del c["param"]["sets"][i]
                     yield c
-            elif k in ("tags", "props", "links") and v:
+            elif k in ("tags", "props", "links", "bases", "own_props") and v:
                 c = copy.deepcopy(obj)
                 c[k] = []
                 yield c
+                if k == "bases":
+                    for i, b in enumerate(v):
+                        if len(v) > 1:
+                            c = copy.deepcopy(obj)
+                            del c[k][i]
+                            yield c
+                        if b["up"] or b["attrs"] or len(b["props"]) > 1:
+                            c = copy.deepcopy(obj)
+                            c[k][i] = dict(b, up=[], attrs=[], props=b["props"][:1])
+                            yield c
             elif k in ("vis", "disabled", "xrank", "info", "name", "desc") and v is not None:
                 c = copy.deepcopy(obj)
                 c[k] = None
@@ -991,6 +1018,29 @@ SPELLED = [{"entry": "dir", "defect": None, "spelling": k, "layout": _api([_t("p
 ]
 
 
+def _base(props, attrs=(), up=()):
+    return {"props": [dict(p) for p in props], "attrs": list(attrs), "up": list(up)}
+
+
+def _p(name, getter, target=None):
+    return dict({"name": name, "getter": getter}, **({"target": target} if target else {}))
+
+
+# fifth seeded round, (c): suite classes that INHERIT properties from plain helper base classes / mixins (minimised failing
+# inputs of the seeded change C13-12 first: a getter reading an injected fixture, a getter handing out a test of the suite)
+INHERITED = [
+    {"entry": "dir", "defect": None, "layout": {"name": "suites", "noise": False, "dirs": [], "mods": [
+        _m("shop", classes=[_c("cart", [_t("add_item")], bases=[_base([_p("session", "fixture")], ["api"])])])]}},
+    {"entry": "dir", "defect": None, "layout": {"name": "suites", "noise": False, "dirs": [], "mods": [
+        _m("shop", classes=[_c("cart", [_t("add_item")], bases=[_base([_p("entry_point", "returns-test", "add_item")])])])]}},
+    {"entry": "class", "pick": ["shop", "checkout"], "defect": None, "layout": {"name": "suites", "noise": False, "dirs": [], "mods": [
+        _m("shop", classes=[_c("checkout", [_t("pay", pos=0), _t("wip", pos=1, vis="hidden")], [_c("refund", [_t("full")], pos=2)],
+                               bases=[_base([_p("aa_prop", "value")], [], [_base([_p("client", "raise-runtime")])]),
+                                      _base([_p("inner", "returns-suite", "refund")], ["TIMEOUT"])],
+                               own_props=[_p("session", "raise-attr")])])]}},
+]
+
+
 class Load(C.Stream):
     name = "C13.load"
     malformed = False
@@ -999,7 +1049,7 @@ class Load(C.Stream):
     quick_seconds = 38
     thorough_seconds = 420
     chunk = 60
-    corpus = [WITNESS_D18, WITNESS_D36] + SPELLED + DROPPINGS + COND_SHAPES + CORPUS_SHAPES + HEADER_SPELLINGS
+    corpus = [WITNESS_D18, WITNESS_D36] + SPELLED + INHERITED + DROPPINGS + COND_SHAPES + CORPUS_SHAPES + HEADER_SPELLINGS
 
     def gen(self, rng, i):
         lay = L.gen_layout(rng)
@@ -1575,6 +1625,94 @@ def scan_tables():
     finally:
         shutil.rmtree(top, ignore_errors=True)
 
+# ---------------------------------------------------------------------------------------------
+# decision table of the attribute scan (`helpers/introspection.get_object_attributes` on a suite object): which names of
+# `dir(obj)` it yields, and whether it evaluates a property for that, by WHERE in the MRO the name is first defined and as what
+# ---------------------------------------------------------------------------------------------
+_G = ("raises", "returns", "value")
+ATTR_SHAPES = (
+    [[[("t", "member")], [("p", "prop", g)]] for g in _G] +                                   # inherited from the base
+    [[[("t", "member"), ("p", "prop", g)]] for g in _G] +                                     # own
+    [[[("t", "member")], [("c", "plain")], [("p", "prop", g)]] for g in _G] +                 # grand-base / second mixin
+    [[[("t", "member")], [("p", "prop", g)], [("q", "prop", "raises")]] for g in _G] +         # two levels of properties
+    [[[("t", "member"), ("p", "plain")], [("p", "prop", "raises")]],                          # overridden by a plain attribute
+     [[("t", "member"), ("p", "prop", "raises")], [("p", "plain")]],                          # a property overriding a plain one
+     [[("t", "member")], [("p", "prop", "raises")], [("p", "plain")]],
+     [[("t", "member")], [("p", "plain")], [("p", "prop", "raises")]],
+     [[("u", "plain")], [("t", "member")]],                                                   # an inherited test method
+     [[("t", "plain")], [("t", "member")]],                                                   # … overridden by a constant
+     [[("t", "prop", "value")], [("t", "member")]],                                           # … overridden by a property
+     [[("t", "member")], [("t", "prop", "raises")]],                                          # a test overriding a base's property
+     [[("t", "member"), ("__p__", "prop", "raises")], [("__q__", "plain")]],                  # '__' names
+     [[("t", "member")], []], [[], []]])
+
+
+def _lean_mro(mro):
+    def ent(e):
+        if e[1] == "member":
+            return 'ClassAttrs.Entry.member (ClassAttrs.Member.test { attr := %s, rank := 1 })' % _lean_str(e[0])
+        if e[1] == "plain":
+            return "ClassAttrs.Entry.plain"
+        g = {"raises": "ClassAttrs.Getter.raises", "value": "ClassAttrs.Getter.value",
+             "returns": '(ClassAttrs.Getter.returns (ClassAttrs.Member.test { attr := "t", rank := 1 }))'}[e[2]]
+        return "ClassAttrs.Entry.property " + g
+    return "[" + ", ".join("[" + ", ".join("(%s, %s)" % (_lean_str(e[0]), ent(e)) for e in d) + "]" for d in mro) + "]"
+
+
+def attr_tables():
+    """Execute the REAL `get_object_attributes` on an instance of a class whose MRO has the given dicts — built once as a
+    single-inheritance chain and once as a class with independent mixins (same MRO, must decide the same) — and record per
+    name of `dir()`: is it yielded; was a property getter run."""
+    import lemoncheesecake.api as lcc
+    from lemoncheesecake.helpers.introspection import get_object_attributes
+    rows = []
+    for mro in ATTR_SHAPES:
+        res = []
+        for how in ("chain", "mixins"):
+            evaluated = []
+
+            def mk_dict(d):
+                ns = {}
+                for e in d:
+                    if e[1] == "member":
+                        def t(self):
+                            pass
+                        t.__name__ = e[0]
+                        ns[e[0]] = lcc.test("T")(t)
+                    elif e[1] == "plain":
+                        ns[e[0]] = 42
+                    else:
+                        def getter(self, _g=e[2], _n=e[0]):
+                            evaluated.append(_n)
+                            if _g == "raises":
+                                raise AttributeError("only at run time")
+                            return getattr(self, "t") if _g == "returns" else 42
+                        ns[e[0]] = property(getter)
+                return ns
+            classes = []
+            if how == "chain":
+                parent = object
+                for i, d in reversed(list(enumerate(mro))):
+                    parent = type("K%d" % i, (parent,), mk_dict(d))
+                cls = parent
+            else:
+                bases = tuple(type("K%d" % i, (object,), mk_dict(d)) for i, d in list(enumerate(mro))[1:])
+                cls = type("K0", bases or (object,), mk_dict(mro[0]))
+            obj = cls()
+            names = sorted({e[0] for d in mro for e in d})
+            try:
+                got = [n for n, _ in get_object_attributes(obj)]
+            except Exception:        # a getter was run and raised: the scan yields nothing to its caller
+                got = []
+            out = {n: (n in got, n in evaluated) for n in names}
+            res.append(out)
+        assert res[0] == res[1], (mro, res)
+        for n, (listed, ev) in sorted(res[0].items()):
+            rows.append(("(%s, %s)" % (_lean_mro(mro), _lean_str(n)), "(%s, %s)" % (_B(listed), _B(ev)),
+                         "MRO %r: %r yielded=%s getter-evaluated=%s" % (mro, n, listed, ev)))
+    return rows
+
+
 # header strings of the CSV-like form of @lcc.parametrized the real `_Parametrized.parameters_source` is asked about:
 # spellings of one / two / three fields with white space before / after each field, and every character below 0x100 plus the
 # Unicode spaces and their look-alikes as padding in all four positions
@@ -1771,6 +1909,7 @@ def tables(ctx):
     return [
         C.Table("scanFilterTable", "List (List Char × (Bool × Bool × Bool × Bool))", scan_rows, imports),
         C.Table("scanStemTable", "List (List Char × List Char)", stem_rows, imports),
+        C.Table("propertyScanTable", "List ((ClassAttrs.MRO × String) × (Bool × Bool))", attr_tables(), imports + ("LccModel.Model.ClassAttrs",)),
         C.Table("testFunctionCondTable", "List (Vis × (Bool × Nat))", rows_fn, imports),
         C.Table("testMethodCondTable", "List (Vis × (Bool × Nat))", rows_meth, imports),
         C.Table("classCondTable", "List (Vis × (Bool × Nat × Nat))", rows_cls, imports),
